@@ -22,6 +22,7 @@ type H1Msg struct {
 	Headers []KV
 	Body    []byte
 	Chunked bool   // body was/will be sent chunked
+	Trailers []KV  // HTTP/2: trailing header fields
 	Raw     []byte // bytes of the whole message as received
 }
 
